@@ -2,7 +2,8 @@ import CTV.Gen.Retry
 /-!
 Hand model of `JSONClient.PostAndParseWithRetry`'s loop (jsonclient/client.go) around the regenerated kernels
 `Gen.backoffSet`, `Gen.waitDur`, `Gen.retryClass`, `Gen.retryAfterSeconds`. Time is a parameter (`Int` nanoseconds).
-The zero `time.Time` of a fresh back-off is represented by the instant `-(2^62)` (far in the past, inside int64).
+Instants are unbounded `Int` nanoseconds since the Unix epoch (`T.add` exact, `T.sub` saturating like `time.Time.Sub`), so the
+zero `time.Time` of a fresh back-off is its true value, year 1.
 -/
 namespace CTV.Model.Retry
 
@@ -11,7 +12,7 @@ structure BState where
   mult : Int
 deriving Repr, DecidableEq
 
-def zeroInstant : Int := -(2^62)
+def zeroInstant : Int := -62135596800000000000
 def BState.init : BState := ⟨zeroInstant, 0⟩
 
 /-- forms of the Retry-After header (the date as an instant) -/
@@ -34,7 +35,7 @@ def overrideOf (now : Int) : RA → Option Int
   | .none => none
   | .junk => none
   | .secs n => some (Gen.retryAfterSeconds n)
-  | .date d => some (I64.sub d now)
+  | .date d => some (T.sub d now)
 
 def applySet (s : BState) (now : Int) (ov : Option Int) : Int × BState :=
   let r := Gen.backoffSet s.notBefore s.mult now ov
@@ -53,5 +54,17 @@ def onResponse (s : BState) (now : Int) : Resp → Act × BState
 
 /-- how long `waitForBackoff` sleeps (if the context does not end first); `jitterMs` is the random draw -/
 def waitFor (s : BState) (now jitterMs : Int) : Int := Gen.waitDur s.notBefore now jitterMs
+
+/-- is the response one after which the loop goes round again? -/
+def retryable (s : BState) (now : Int) (r : Resp) : Bool := (onResponse s now r).1 == .retry
+
+/-- the whole loop over a script of (instant of the response, response): the action it ends with and how many responses it
+consumed; `none` = the script ran out while still retrying -/
+def run : BState → List (Int × Resp) → Option (Act × Nat)
+  | _, [] => none
+  | s, (t, r) :: rest =>
+    match onResponse s t r with
+    | (.retry, s') => (run s' rest).map fun (a, k) => (a, k + 1)
+    | (a, _) => some (a, 1)
 
 end CTV.Model.Retry
